@@ -75,8 +75,8 @@ PROPS = {
         "native_standins": "contracts.c12_builder:NATIVE_STANDINS",
         "bounded": ["finalize_variables_init: a buffer with two periods (symbolic, units day/month/year); init_variable_values: one variable with two symbolic keys"],
         "not_decided": ["add_group_entity / check_persons_to_allocate are not under contract (nested loops over the document): bounded stand-in on the real code only",
-                        "expand_axes / add_parallel_axis / add_perpendicular_axis (axes clause of the statement)",
-                        "Variable.check_set_value's conversions (numpy / eval_expression): only that its ValueError becomes a situation error",
+                        "expand_axes / add_parallel_axis: bounded stand-in on the real code only (one axis); add_perpendicular_axis not covered",
+                        "Variable.check_set_value's conversions (numpy / eval_expression): bounded stand-in on the real code only; proved: its ValueError becomes a situation error",
                         "build_from_dict shape dispatch, build_from_variables, build_default_simulation"],
     },
     "C19": {
